@@ -186,9 +186,10 @@ def applicable_rules(parsed, addr, cmd):
     return out
 
 
-def oracle(report, options, parsed, ops, history, lim, clock, replay=None):
+def oracle(report, options, parsed, ops, history, lim, clock, replay=None, note=""):
     """C18 evaluated on the implementation's own decisions: an independent sliding-window count, per rule scope,
-    of the messages the limiter let through."""
+    of the messages the limiter let through.  `note` is appended to what is reported (where the decisions were observed);
+    lim=None: decisions only, no look at the limiter's state."""
     if replay is None:
         replay = {"options": options, "ops": ops}
     # canonical address names
@@ -202,7 +203,7 @@ def oracle(report, options, parsed, ops, history, lim, clock, replay=None):
         v6_specific = ":" in a and c in specific.get(a, {})
         rules_here = applicable_rules(p2, a, c)
         if limited == "raise":
-            report.property_failure("is_limited raised", replay, None)
+            report.property_failure("is_limited raised" + note, replay, None)
             continue
         if limited:
             # refused only when some applicable rule already passed n messages within its interval
@@ -225,7 +226,7 @@ def oracle(report, options, parsed, ops, history, lim, clock, replay=None):
                             if n >= 0 and cnt >= n:
                                 cls = "rl-refused-consumes-global"
                 report.property_failure(
-                    "message %s %s at t=%d refused although no applicable rule had passed n messages" % (a, c, now),
+                    "message %s %s at t=%d refused although no applicable rule had passed n messages%s" % (a, c, now, note),
                     replay, cls)
         else:
             for key, rules in rules_here:
@@ -239,7 +240,7 @@ def oracle(report, options, parsed, ops, history, lim, clock, replay=None):
                     if cnt > n:
                         cls = None
                         report.property_failure(
-                            "%d messages %s %s admitted within %d (limit %d) up to t=%d" % (cnt, a, c, interval, n, now),
+                            "%d messages %s %s admitted within %d (limit %d) up to t=%d%s" % (cnt, a, c, interval, n, now, note),
                             replay, cls)
         # bookkeeping for the global-budget explanation: the message passes global if not refused by it
         if c in p2["global"] and not (c in specific.get(a, {})):
@@ -258,7 +259,7 @@ def oracle(report, options, parsed, ops, history, lim, clock, replay=None):
                         seen_by_global.setdefault(c, []).append(now)
     # state bound: no deque entry older than the longest interval of its governing rules survives an insertion
     now = clock.now
-    for scope, cmds in lim.recent_commands.items():
+    for scope, cmds in (lim.recent_commands.items() if lim is not None else ()):
         for cmd, dq in cmds.items():
             if scope == "global":
                 rules = p2["global"].get(cmd)
@@ -449,6 +450,292 @@ def run_crowd(report, drv, spec, tag):
     report.coverage["crowd_largest"] = max(report.coverage.get("crowd_largest", 0), spec["size"])
 
 
+# ---------------------------------------------------------------------------------------------------------------
+# WHICH address is "the client address": the real websocket endpoint.
+#
+# Everything above hands the limiter an address.  The property says "per client address", so which address the relay
+# takes for a connection is part of it: the address of the peer that opened the connection (the "client" of the ASGI
+# scope), not anything the client writes into its own handshake.  A scenario of this family drives the real wiring
+# (web.create_app with `rate_limits` configured -> NostrAPI.on_websocket -> start_client, behind falcon's ASGI
+# conductor, the limiter under the injected integer clock) with a handful of connections of a few peer addresses inside
+# one window.  Some connections carry the handshake headers a reverse proxy would add (X-Forwarded-For, Forwarded,
+# X-Real-IP, in several spellings, one or two values) naming: another peer of the scenario (a bystander), addresses that
+# never connect, an address that has a rule section of its own (an exemption or another allowance), the peer itself,
+# or no address at all ('unknown', obfuscated identifiers, empty, malformed).
+#   * one peer uses up its allowance, then returns on connections with such headers: still refused (window bound);
+#   * a peer whose handshakes carry non-addresses sends exactly its allowance: all admitted, the connection stays up;
+#   * the bystander, named in other peers' headers, connects plainly afterwards: its own allowance is untouched;
+#   * two windows later everybody returns (with and without headers): admitted again.
+# What is observed is what a client sees: the handshake accepted or not (the ACCEPT message), EOSE / OK true versus
+# NOTICE rate-limited / OK false rate-limited, or the connection ended by the relay (counts as refused: nothing more
+# gets through).  The decisions are attributed to the PEER address and judged by `oracle` (sliding-window count per
+# address of what was let through; refused only when a rule applicable to that address is full) and compared with the
+# Lean model's decisions for the same messages keyed by the peer address.
+WS_PEERS = ["198.51.100.9", "203.0.113.40", "192.0.2.77", "2001:db8:77::9"]
+WS_STRANGERS = ["203.0.113.7", "100.64.3.2", "10.9.8.7", "2001:db8::5"]
+WS_NON_ADDRESSES = ["unknown", "_hidden", "_SEVKISEK", "", " ", "not-an-address", "1.2.3.4.5", "999.1.1.1", "1.2.3.4:80",
+                    "[::1", "localhost", "0x7f.1"]
+WS_SCENARIOS = {"quick": 10, "thorough": 120}
+
+
+def ws_headers(rng, values):
+    """handshake headers naming `values` (first = the client a proxy would claim to forward for)"""
+
+    def fwd_node(v):
+        v = "[%s]" % v if (":" in v and "." not in v and not v.startswith("[")) else v
+        plain = v != "" and all(ch.isalnum() or ch in "._-" for ch in v)
+        return v if (plain and rng.random() < 0.7) else '"%s"' % v
+
+    form = rng.choice(["xff", "xff", "real", "fwd", "fwd", "xff+real", "all"])
+    h = {}
+    if form in ("xff", "xff+real", "all"):
+        h["X-Forwarded-For"] = rng.choice([", ", ","]).join(values)
+    if form in ("real", "xff+real", "all"):
+        h["X-Real-IP"] = values[0]
+    if form in ("fwd", "all"):
+        elems = ["for=" + fwd_node(v) for v in values]
+        if rng.random() < 0.4:
+            elems[0] += rng.choice([";proto=https", ";by=10.0.0.9;proto=https", ";host=relay.example"])
+        h["Forwarded"] = ", ".join(elems)
+    if rng.random() < 0.25:
+        h = {k.lower(): v for k, v in h.items()}
+    return h
+
+
+def gen_ws_spec(rng):
+    """a JSON-able scenario: rule configuration, connections (peer, handshake headers, time) and the times of the
+    messages sent on each; the whole of it is kept in the replay (it is small)"""
+    cmd = rng.choice(["REQ", "REQ", "EVENT"])
+    window = rng.choice([60, 3600, 3600])
+    long_name = rng.choice(INTERVAL_NAMES[window])
+    n = rng.choice([1, 2, 3])
+    rule = "%d/%s" % (n, long_name)
+    if rng.random() < 0.3:  # a burst rule next to it
+        short = "%d/%s" % (rng.choice([2, 5]), rng.choice(INTERVAL_NAMES[1]))
+        rule = ",".join([short, rule] if rng.random() < 0.5 else [rule, short])
+    options = {"ip": {cmd: rule}}
+    if rng.random() < 0.5:  # connections are limited too
+        options["ip"]["ACCEPT"] = "%d/%s" % (rng.choice([2, 3, 4]), long_name)
+    busy, bystander, odd = rng.sample(WS_PEERS, 3)
+    allowance = {busy: n, bystander: n, odd: n}
+    named = [bystander, bystander] + WS_STRANGERS
+    u = rng.random()
+    if u < 0.2:  # the busy peer has a tighter allowance of its own
+        options[busy] = {cmd: "1/%s" % long_name}
+        allowance[busy] = 1
+    elif u < 0.4:  # an address that never connects is exempt
+        a = rng.choice(WS_STRANGERS)
+        options[a] = {cmd: "-1/s"}
+        named += [a, a, a]
+    elif u < 0.55:  # the bystander has a larger allowance of its own
+        options[bystander] = {cmd: "%d/%s" % (n + 1, long_name)}
+        allowance[bystander] = n + 1
+
+    def some_addresses():
+        vs = [rng.choice(named)]
+        if rng.random() < 0.3:
+            vs.append(rng.choice(named + [busy] + WS_NON_ADDRESSES[:2]))
+        return vs
+
+    def non_addresses():
+        vs = [rng.choice(WS_NON_ADDRESSES)]
+        if rng.random() < 0.3:
+            vs.append(rng.choice(WS_STRANGERS + WS_NON_ADDRESSES))
+        return vs
+
+    # (peer, headers, number of messages)
+    first = (busy, ws_headers(rng, some_addresses()) if rng.random() < 0.4 else None, allowance[busy] + 1)
+    again = [(busy, ws_headers(rng, [bystander]), max(allowance.values()) + 1)]  # names the bystander on every message
+    for _ in range(rng.choice([2, 3, 4])):
+        again.append((busy, ws_headers(rng, some_addresses()), rng.choice([1, 2])))
+    rng.shuffle(again)
+    k = rng.choice([1, 2]) if allowance[odd] > 1 else 1
+    share = [allowance[odd] // k + (1 if i < allowance[odd] % k else 0) for i in range(k)]
+    odd_block = [(odd, ws_headers(rng, non_addresses()), m) for m in share] + [(odd, None, 1)]
+    at = rng.randrange(len(again) + 1)
+    plan = [first] + again[:at] + odd_block + again[at:] + [(bystander, None, allowance[bystander] + 1)]
+    gaps = [0, 0, 1] if window == 60 else [0, 1, 2, 5]
+    now, conns = 1, []
+    for peer, headers, m in plan:
+        now += rng.choice(gaps)
+        c = {"peer": peer, "headers": headers, "t": now, "msgs": []}
+        for _ in range(m):
+            now += rng.choice(gaps)
+            c["msgs"].append(now)
+        conns.append(c)
+    assert now < window - 1  # all of it inside the window of the very first message
+    # two windows later: nobody may still be blocked, whatever the handshake says
+    now += 2 * window + 3
+    for peer, headers in ((busy, ws_headers(rng, [bystander])), (odd, ws_headers(rng, non_addresses())), (bystander, None)):
+        conns.append({"peer": peer, "headers": headers, "t": now, "msgs": [now]})
+    return {"options": options, "cmd": cmd, "conns": conns, "nonce": rng.getrandbits(32)}
+
+
+def ws_is_no_address(token):
+    """a header token (X-Forwarded-For item, Forwarded `for=` node) that is not an IP address; evidence counters only"""
+    t = token.strip()
+    if "=" in t:
+        name, t = t.split("=", 1)
+        if name.strip().lower() != "for":
+            return False
+    t = t.strip().strip('"')
+    if t.startswith("[") and "]" in t:
+        t = t[1:t.index("]")]
+    try:
+        ipaddress.ip_address(t)
+        return False
+    except ValueError:
+        return True
+
+
+def ws_limiter_of(app):
+    """the limiter create_app wired into the websocket resource (None if the router does not give it away)"""
+    try:
+        return app._router.find("/")[0].rate_limiter
+    except Exception:  # noqa
+        return None
+
+
+def run_ws(report, drv, relay, spec, tag):
+    import asyncio
+    import json
+    import falcon
+    import falcon.testing
+    from nostr_relay import web, rate_limiter as rl
+    from nostr_relay.config import Config
+    from aionostr.key import PrivateKey
+
+    options, cmd = spec["options"], spec["cmd"]
+    parsed = parsed_from_options(options)
+    clock = Clock()
+    rl.perf_counter = clock
+    Config.rate_limits = options
+    app = web.create_app(storage=relay.storage)
+    lim = ws_limiter_of(app)
+    sk = PrivateKey(bytes([18]) * 32)
+    serial = [0]
+
+    def frame():
+        serial[0] += 1
+        if cmd == "REQ":
+            return ["REQ", "s%d" % serial[0], {"authors": ["ee" * 32], "limit": 1}]
+        return ["EVENT", relay.signed_event(sk, kind=1, content="ws %d %d" % (spec["nonce"], serial[0]),
+                                            created_at=1700000000 + serial[0])]
+
+    def verdict(sent, reply):
+        """False = let through, True = refused, None = not the answer to this message"""
+        if not isinstance(reply, list) or not reply:
+            return None
+        if reply[:2] == ["NOTICE", "rate-limited"]:
+            return True
+        if sent[0] == "REQ" and reply == ["EOSE", sent[1]]:
+            return False
+        if sent[0] == "EVENT" and reply[0] == "OK" and len(reply) >= 3 and reply[1] == sent[1]["id"]:
+            if reply[2] is True:
+                return False
+            if str(reply[3] if len(reply) > 3 else "").startswith("rate-limited"):
+                return True
+        return None
+
+    async def session(c):
+        """[(cmd, t, refused)] as the client saw it, whether the relay ended the connection, the close code"""
+        seen, ended, code, accepted = [], False, None, False
+        clock.now = c["t"]
+        try:
+            async with falcon.testing.ASGIConductor(app).simulate_ws("/", remote_addr=c["peer"], headers=c["headers"] or None) as ws:
+                accepted = True
+                seen.append(("ACCEPT", c["t"], False))
+                for t in c["msgs"]:
+                    clock.now = t
+                    sent = frame()
+                    try:
+                        await ws.send_text(json.dumps(sent))
+                        v = None
+                        for _ in range(8):
+                            reply = await asyncio.wait_for(ws.receive_json(), 20)
+                            v = verdict(sent, reply)
+                            if v is not None:
+                                break
+                        if v is None:
+                            raise common.MachineryBroken("websocket harness: no answer to %r (last frame %r)" % (sent[0], reply))
+                    except falcon.WebSocketDisconnected as ex:
+                        # the relay ended the connection instead of answering: nothing more gets through
+                        seen.append((cmd, t, True))
+                        ended, code = True, ex.code
+                        break
+                    seen.append((cmd, t, v))
+        except falcon.WebSocketDisconnected as ex:
+            if not accepted:
+                seen.append(("ACCEPT", c["t"], True))
+                code = ex.code
+            elif not ended:
+                ended, code = True, ex.code
+        return seen, accepted, ended, code
+
+    history, observed = [], []
+    lines = [{"op": "rl.reset", "cfg": model_cfg(parsed)}]
+    for c in spec["conns"]:
+        try:
+            seen, accepted, ended, code = relay.run(asyncio.wait_for(session(c), 120))
+        except common.MachineryBroken:
+            raise
+        except Exception as ex:
+            raise common.MachineryBroken("websocket harness failed (%s, peer %s, headers %r): %r" % (tag, c["peer"], c["headers"], ex))
+        for (m, t, refused) in seen:
+            history.append((c["peer"], m, t, refused))
+            lines.append({"op": "rl.limited", "addr": norm_addr(c["peer"]), "cmd": m, "now": t})
+        if accepted:  # start_client runs cleanup() when the connection is over
+            lines.append({"op": "rl.cleanup", "now": clock.now})
+        observed.append({"peer": c["peer"], "headers": c["headers"], "decisions": [[m, t, r] for (m, t, r) in seen],
+                         "ended_by_relay": ended, "close_code": code})
+        report.count("ws_connections")
+        report.count("ws_connections_with_forwarding_headers" if c["headers"] else "ws_connections_plain")
+        if any(ws_is_no_address(tok) for v in (c["headers"] or {}).values() for tok in v.replace(";", ",").split(",")):
+            report.count("ws_handshakes_naming_no_address")
+        if ended:
+            report.count("ws_connections_ended_by_relay")
+        if not accepted:
+            report.count("ws_handshakes_refused")
+    replay = {"options": options, "ws": spec, "observed": observed}
+    # tie: the same messages, keyed by the peer address, through the model
+    model_out = drv.batch(lines)
+    decisions = [mo for ln, mo in zip(lines, model_out) if ln["op"] == "rl.limited"]
+    for i, (h, mo) in enumerate(zip(history, decisions)):
+        if mo != h[3]:
+            report.correspondence_break(
+                "web.NostrAPI.on_websocket -> rate_limiter.is_limited (decisions per peer address)",
+                {"options": options, "ws": spec, "message": list(h[:3]), "index": i, "observed": observed}, h[3], mo)
+            break
+    oracle(report, options, parsed, [], history, lim, clock, replay=replay,
+           note=" (address = the peer of the websocket connection; handshake headers and what each connection saw are in the replay)")
+    report.case(("ws", json.dumps(spec, sort_keys=True)), nontrivial=any(h[3] for h in history),
+                sample={"options": options, "websocket_connections": observed[:4]})
+    report.count("ws_scenarios")
+    report.count("ws_messages", sum(1 for h in history if h[1] != "ACCEPT"))
+    report.count("ws_refused", sum(1 for h in history if h[3]))
+    report.count("messages", len(history))
+    report.count("refused", sum(1 for h in history if h[3]))
+
+
+def run_ws_family(report, drv, specs, tag="ws"):
+    """one relay (real SQL storage) for all scenarios, a fresh app and limiter per scenario; the configuration object is
+    put back afterwards"""
+    from lib.proto import make_sql_relay
+    from nostr_relay.config import Config
+    from nostr_relay import rate_limiter as rl
+
+    saved_cfg, saved_clock = dict(Config.__dict__), rl.perf_counter
+    relay = make_sql_relay()
+    try:
+        for j, spec in enumerate(specs):
+            run_ws(report, drv, relay, spec, "%s%d" % (tag, j))
+    finally:
+        relay.close()
+        Config.__dict__.clear()
+        Config.__dict__.update(saved_cfg)
+        rl.perf_counter = saved_clock
+
+
 def run(report, tier, seed):
     rng = random.Random(seed)
     drv = common.Driver()
@@ -460,7 +747,12 @@ def run(report, tier, seed):
         "plus crowd scenarios: focus addresses exhaust their allowance, then N pairwise distinct IPv4/IPv6 addresses "
         "(N from 40 to tens of thousands, distribution.crowd_*) send inside the same window with cleanup() and probes in "
         "between, then everybody returns inside the window, at its boundary and after it; judged by the sliding-window "
-        "oracle, N <= %d also against the model" % CROWD_MODEL_MAX)
+        "oracle, N <= %d also against the model" % CROWD_MODEL_MAX
+        + "; plus websocket scenarios through web.create_app / NostrAPI.on_websocket with rate_limits configured: a handful of "
+        "connections of three peer addresses inside one window, some with client-chosen X-Forwarded-For / Forwarded / X-Real-IP "
+        "handshake headers naming other peers, addresses with rule sections of their own, strangers or non-addresses; what each "
+        "client sees (handshake, EOSE / OK / NOTICE rate-limited, connection ended) is attributed to the PEER address and judged "
+        "by the same oracle and against the model's decisions for that address (distribution.ws_*)")
     report.assumptions += [
         "clock: perf_counter replaced by an integer clock constant during one is_limited call",
         "rules with n = 0 and empty rule strings are configuration errors outside the property's domain",
@@ -478,6 +770,8 @@ def run(report, tier, seed):
     # many distinct addresses inside one window (drawn after the cases above: their random stream is unchanged)
     for j, size in enumerate(CROWD_SIZES["quick" if tier == "quick" else "thorough"]):
         run_crowd(report, drv, gen_crowd_spec(rng, size), "crowd%d" % j)
+    # which address the limiter is keyed by, through the real websocket endpoint (drawn after everything above)
+    run_ws_family(report, drv, [gen_ws_spec(rng) for _ in range(WS_SCENARIOS["quick" if tier == "quick" else "thorough"])])
     # parse_option glue: interval names incl. malformed
     from nostr_relay import rate_limiter as rl
     lim = rl.RateLimiter({})
@@ -525,6 +819,9 @@ def replay(report, path):
         r = it.get("replay") or it.get("input")
         if "crowd" in r:
             run_crowd(report, drv, r["crowd"], "replay")
+            continue
+        if "ws" in r:
+            run_ws_family(report, drv, [r["ws"]], "replay")
             continue
         options = r["options"]
         ops = [tuple(o) for o in r["ops"]]
